@@ -252,6 +252,8 @@ class Calls:
                 continue
             lfr = Frame(cls.module, None, {}, None)
             lfr.in_spec = True
+            saved_temps = self.path.temps
+            self.path.temps = []  # the invariant holds wherever the object is used, not only under the current guard
             try:
                 for a in args:
                     lfr.env[a] = self.sym_getattr(obj, a, None, lfr)
@@ -259,6 +261,8 @@ class Calls:
                 self.note_assumption(f"data invariant: @require of {init.qualname} holds for symbolic instances")
             except (Unsupported, PathEnd):
                 continue
+            finally:
+                self.path.temps = saved_temps
 
     def dispatch_method(self, obj: SymObj, name: str, subs: List[ClassInfo], node: Any, fr: Frame) -> V:
         impls: List[Tuple[FuncInfo, List[ClassInfo]]] = []
